@@ -211,6 +211,12 @@ class Observer:
             self.index_events += 1
             ext = declared_extent(ins.Array.Type)
             idx = localScope.get(ins.Index.Reference)
+            if ext is None:
+                # the operand's static type does not say (after load forwarding the indexed operand can be an earlier
+                # VECTOR_SET / STORE_ARRAY result, which the lowering types with the element type): the run-time value does
+                held = localScope.get(getattr(ins.Array, "Reference", None))
+                if isinstance(held, list):
+                    ext = len(held)
             if ext is None or not isinstance(idx, int) or isinstance(idx, bool):
                 if not isinstance(idx, int):
                     self._event("non-integer-index", fn=function.Name, pc=pc, value=repr(idx)[:30])
